@@ -141,6 +141,12 @@ func differential(c *DCase, wantRoot bool) diffResult {
 		return diffResult{Verdict: "fail", Reason: err.Error(), Impl: impl, Src: src}
 	}
 	rr := ref.Run(ref.Config{Prog: c.Prog, Selectors: c.Sel, Files: rfiles, Hint: impl.Stdout, Excl: excl})
+	if impl.Class == "budget" && rr.Class != "unspecified" && rr.Class != "known" {
+		// the cost budget is there to end runaways, not to judge expensive programs: the reference
+		// finished, so the implementation gets fifty times the budget before "it does not end"
+		// is believed
+		impl = run.InProc(src, c.inFiles(), sels, run.Opts{Budget: implBudget * 50, WantRoot: wantRoot})
+	}
 	res := diffResult{Impl: impl, Ref: rr, Src: src}
 	switch rr.Class {
 	case "unspecified":
